@@ -883,6 +883,16 @@ fn base_run<const B: Word>(ctx: &mut Ctx, pl: &Plan) {
         ctx.bound(&format!("B{}.transc-large-p.values", B), vs.len() as u64);
         transc::<B>(ctx, &format!("transc-large-p.B{}", B), &vs, &[64, 100, 200, 500], &["within-1ulp", "exact-value:flag-exact", "arg:x-fit", "fbig-method-agrees"]);
     }
+    // every precision of a range for a few arguments: the working precision of the series (p + guard
+    // digits, doubled in places) crosses every machine-word boundary somewhere in the range
+    {
+        let b = base as i64;
+        let u: Vec<(BigInt, i64)> = vec![(BigInt::from(3), 0), (BigInt::from(b - 1), -1), (BigInt::from(b + 1), -1), (BigInt::from(-3), -1)];
+        let vs = vals::<B>(&u, "");
+        let every: Vec<usize> = (1..=ctx.pick(130usize, 260usize)).collect();
+        ctx.bound(&format!("B{}.transc-every-p", B), serde_json::json!([vs.len(), every.len()]));
+        transc::<B>(ctx, &format!("transc-every-p.B{}", B), &vs, &every, &["within-1ulp", "fbig-method-agrees"]);
+    }
     let ep: Vec<usize> = if ctx.quick() { vec![1, 3, 8, 33] } else { vec![1, 2, 3, 5, 8, 16, 33, 100] };
     extreme::<B>(ctx, &ep);
     // powi
@@ -923,7 +933,7 @@ fn base_run<const B: Word>(ctx: &mut Ctx, pl: &Plan) {
 }
 
 pub fn run(ctx: &mut Ctx) {
-    ctx.rule = "per base B: (1) every x of X(B) = F(B,P,E) ∪ {±B^-k, 1±B^-k, -1+B^-k : k<=6 (12 for base 2, thorough)} ∪ {±d·B^j : d=1..9, j=1,2} (F(B,P,E) = all s·B^e, |s|<B^P, |e|<=E) in the domain of the function × {exp, exp_m1, ln, ln_1p} × every precision of the list (0 = unlimited included) × six rounding modes, through Context::f and (when x fits p) FBig::f; (2) the same for a list of tiny (down to B^-1000) and huge (up to 10^6; B^1000 for ln) arguments; (3) powi: every base of F(B,2,2) × exponents -12..12, ±63, ±64, ±1000 × precisions × modes; (4) powf: every (x >= 0, y) of F × F (base 10 thorough: (all x)×(one-digit y) ∪ (one-digit x)×(all y)) × precisions × modes. Each (value, flag) is judged by: |r - true| < ulp_p(true) with ulp_p(t) = B^(floor(log_B|t|) - p + 1); flag Exact only if r = true; at most p+1 digits; precision 0 must panic (or be exact). The true value is a rational (powi, rational powers, f(0), ln 1) or is enclosed by exact fractions refined until every comparison is decided. non-trivial = true value irrational (powi: base not 0/±1, exponent not 0/1)".into();
+    ctx.rule = "per base B: (1) every x of X(B) = F(B,P,E) ∪ {±B^-k, 1±B^-k, -1+B^-k : k<=6 (12 for base 2, thorough)} ∪ {±d·B^j : d=1..9, j=1,2} (F(B,P,E) = all s·B^e, |s|<B^P, |e|<=E) in the domain of the function × {exp, exp_m1, ln, ln_1p} × every precision of the list (0 = unlimited included) × six rounding modes, through Context::f and (when x fits p) FBig::f; (1b) four arguments × every precision 1..130 (260 thorough); (2) the same for a list of tiny (down to B^-1000) and huge (up to 10^6; B^1000 for ln) arguments; (3) powi: every base of F(B,2,2) × exponents -12..12, ±63, ±64, ±1000 × precisions × modes; (4) powf: every (x >= 0, y) of F × F (base 10 thorough: (all x)×(one-digit y) ∪ (one-digit x)×(all y)) × precisions × modes. Each (value, flag) is judged by: |r - true| < ulp_p(true) with ulp_p(t) = B^(floor(log_B|t|) - p + 1); flag Exact only if r = true; at most p+1 digits; precision 0 must panic (or be exact). The true value is a rational (powi, rational powers, f(0), ln 1) or is enclosed by exact fractions refined until every comparison is decided. non-trivial = true value irrational (powi: base not 0/±1, exponent not 0/1)".into();
     ctx.assume("exp(x), exp_m1(x) for rational x != 0 and ln(x), ln_1p(x-1) for positive rational x != 1 are transcendental (Lindemann–Weierstrass), x^(a/b) is irrational unless x is a perfect b-th power: such values never equal a float, so refinement of the enclosures always decides the comparisons");
     ctx.assume("enclosures: fixed-point interval arithmetic on num_bigint::BigInt with outward rounding, Maclaurin series of (e^t-1)/t for |t|<=1/2 and of atanh(z)/z for |z|<=1/3 with explicit remainder bounds, ln 2 = 2 atanh(1/3); checked at start against 70 known digits of e, 1/e, ln 2, ln 10 and against libm on a grid");
     ctx.assume("the direction of AddOne/SubOne and correct rounding are not demanded by the property: they are only counted (classes unspecified:* and info:*); operands with more digits than the precision are judged too (class x-long in the signature) because the statement quantifies over every finite argument; domain errors (ln x<=0, ln_1p x<=-1) belong to C16 and are skipped");
